@@ -42,6 +42,12 @@ def judgeLine (j : J) (op : String) (outs : List String) : J × List String :=
       let got := outs.flatMap fun o => match words o with | "submit" :: ws => ws | _ => []
       if outs.any (· == "panic") then (j, [s!"VIOLATION case={j.caseId} sig=console:panic"])
       else if got == e then ({ j with expect := none }, [])
+      else
+      -- the typed statements came through except that control characters (TAB ...) inside them are gone
+      let strip (h : String) : String :=
+        hexOrDash (((bytesOfHex h).getD []).filter fun b => b.toNat ≥ 32)
+      if got == e.map strip then ({ j with expect := none },
+        [s!"VIOLATION case={j.caseId} sig=console:control-character-dropped expected=[{(" ".intercalate e).take 200}] got=[{(" ".intercalate got).take 200}]"])
       else ({ j with expect := none },
         [s!"VIOLATION case={j.caseId} sig=console:submitted-differs expected=[{(" ".intercalate e).take 300}] got=[{(" ".intercalate got).take 300}]"])
   | _ => (j, [])
